@@ -289,7 +289,8 @@ impl<V: fmt::Debug + Clone> MapView for MergedMapView<V> {
             }
         }
 
-        unreachable!("New entries may not be added to MergedMapView")
+        // New entries may not be added to `MergedMapView`
+        None
     }
 
     fn keys(&self) -> Vec<Identifier> {
